@@ -193,6 +193,45 @@ def run(ck, w):
         ck.fail(o, bk.name, "deletions not reported", "EntryChange::deleted is never built in backup()")
     if good:
         ck.ok(o)
+    o = ck.ob("C18.5c", "backup(): EVERY basis-only entry is reported as deleted - on the arm without a source entry the callback invocation is "
+                        "unavoidable before the next merged entry is taken")
+    arm_entries = set()
+    for bb in sorted(bk.live):
+        t = bk.blocks[bb]["term"]
+        if t["tk"] != "switch":
+            continue
+        dl = flow.operand_local(t["discr"])
+        for st in reversed(bk.blocks[bb]["stmts"]):
+            if st["sk"] == "assign" and st["pl"]["l"] == dl and st["rv"]["rk"] == "discr":
+                ty = bk.locals[st["rv"]["pl"]["l"]] or ""
+                if ty.startswith("std::option::Option<source::entry::Entry") or ty.startswith("std::option::Option<source::Entry"):
+                    arms_ = {int(a[0]): a[1] for a in t["arms"]}
+                    arm_entries.add(arms_[0] if 0 in arms_ else t["otherwise"])
+                break
+    reporters = set()
+    for e in bk.events:
+        if e.bb not in bk.live:
+            continue
+        if re.search(r"Option::<T>::(map|inspect|iter)$", e.name) and len(e.args) > 1:
+            for oo in flow.origins(bk, e.args[1]):
+                if oo[0] == "agg" and oo[1] in lib.bodies and events_of(lib, lib.bodies[oo[1]], "change::EntryChange::deleted"):
+                    reporters.add(e.bb)
+        if (e.callee or "") == "std::ops::Fn::call" and len(e.args) > 1:
+            if "change::EntryChange::deleted" in flow.origin_calls(flow.origins_x(lib, bk, e.args[1])):
+                reporters.add(e.bb)
+    heads = [e.bb for e in events_of(lib, bk, "merge::MergeTrees::next")]
+    if not arm_entries or not heads:
+        ck.fail(o, bk.name, "anchor-missing", "no branch on the source entry being absent, or no MergeTrees::next loop head")
+    elif not reporters:
+        ck.fail(o, bk.name, "deletions not passed to the callback", "no invocation of the change callback with EntryChange::deleted")
+    else:
+        skipped = [a for a in arm_entries if any(h in bk.reachable(a, removed_nodes=reporters) for h in heads)]
+        if skipped:
+            ck.fail(o, bk.name, "a deleted entry can go unreported",
+                    "from the arm without a source entry the next merged entry can be taken without invoking the callback: %s" %
+                    rules.witness(bk, heads[0], removed_nodes=reporters), "%s:bb%d" % (bk.file, skipped[0]))
+        else:
+            ck.ok(o, "%d reporting site(s)" % len(reporters), instances=len(reporters))
     cfb = w.body("backup::BackupWriter::copy_file")
     o = ck.ob("C18.5b", "copy_file: 'added' only without a basis entry; 'unchanged' only if the new entry equals the basis entry; otherwise 'changed'")
     added = events_of(lib, cfb, "change::EntryChange::added")
